@@ -7,6 +7,7 @@ harness/rt (every op reports the tokens dropped inside gecs; `end` reports the b
 History = labelled path (see Props/C17).  `owned s` = all cells of all columns.
 Modelled, not verified: that the bit-copies of `swap_remove`/`realloc` run no destructor
 (Miri on the harness in the thorough tier is the supporting evidence).
+World-history forms (incl. writes and clones): Props/Histories.lean, Props/C04Histories.lean; panicking Clone/Drop: Props/Faults.lean.
 -/
 import Gecs.Lemmas.Ownership
 
